@@ -4,7 +4,7 @@
    identifying attribute); invariant and [Public]: proofs/NamespaceProofs.v, NamespaceMain.v. *)
 From Coq Require Import List ZArith String.
 From Basyx Require Import model.Corr model.Namespace model.NamespaceObs proofs.NamespaceProofs proofs.NamespaceOps4
-  proofs.NamespaceHooks proofs.NamespaceExtend proofs.NamespaceMain.
+  proofs.NamespaceHooks proofs.NamespaceExtend proofs.NamespaceMain proofs.NamespaceClock.
 Import ListNotations.
 Local Open Scope string_scope.
 
@@ -128,3 +128,16 @@ Example C01_example_atomic :
   = [(Err (EAasd 114), true); (Err (EAasd 114), true); (Err (EAasd 120), true);
      (Err (EAasd 109), true); (Err EIndex, true); (Err (EAasd 114), true)].
 Proof. vm_compute. reflexivity. Qed.
+
+(* The model has no clock: the idShort generated for a SubmodelElementList item is [KGen (gen s)] with a counter.  The
+   code takes it from uuid.uuid1(clock_seq=...), i.e. from the clock readings [clock] through [uuid_next] (Lib/uuid.py:
+   a reading that is not later than the last stamp is replaced by last + 1).  For EVERY sequence of readings - a clock
+   that stands still, is coarse or steps back - the i-th and the j-th stamp of a process coincide only if i = j, so
+   replacing the stamps by their index loses nothing; the correspondence run exercises this under the clocks frozen /
+   coarse / stepback of tools/c01.py clock_env. *)
+Theorem C01_generated_ids_any_clock : forall (clock : list nat) i j, (i < List.length clock)%nat -> (j < List.length clock)%nat ->
+  nth i (uuid_stamps None clock) 0%nat = nth j (uuid_stamps None clock) 0%nat -> i = j.
+Proof. exact uuid_stamps_injective. Qed.
+
+Example C01_generated_ids_example : uuid_stamps None [7; 7; 7; 3; 9]%nat = [7; 8; 9; 10; 11]%nat.
+Proof. exact uuid_stamps_example. Qed.
